@@ -2,7 +2,6 @@ package common
 
 import (
 	"math/big"
-	"strings"
 	"time"
 
 	"cosmossdk.io/math"
@@ -94,16 +93,17 @@ func NewDecCoinsResponse(amount sdk.DecCoins) []DecCoin {
 	return outputs
 }
 
-// HexAddressFromBech32String converts a hex address to a bech32 encoded address.
+// HexAddressFromBech32String converts a bech32 encoded account or validator address to a hex address.
 func HexAddressFromBech32String(addr string) (res common.Address, err error) {
-	if strings.Contains(addr, sdk.PrefixValidator) {
-		valAddr, err := sdk.ValAddressFromBech32(addr)
-		if err != nil {
-			return res, err
-		}
+	// NOTE: bech32 also has an all upper case spelling: do not look for the (lower case) prefix in the string
+	if valAddr, err := sdk.ValAddressFromBech32(addr); err == nil {
 		return common.BytesToAddress(valAddr.Bytes()), nil
 	}
-	return common.BytesToAddress(sdk.MustAccAddressFromBech32(addr)), nil
+	accAddr, err := sdk.AccAddressFromBech32(addr)
+	if err != nil {
+		return res, err
+	}
+	return common.BytesToAddress(accAddr), nil
 }
 
 // SafeAdd adds two integers and returns a boolean if an overflow occurs to avoid panic.
